@@ -2,7 +2,7 @@ SPECIFICATION LSpec
 CONSTANTS
   Sessions = {"cli", "acc", "bkl"}
   MaxTraffic = 3
-  OwnC = FALSE
-  OwnL = FALSE
-PROPERTIES ReleasedAll
+  OwnC = TRUE
+  OwnL = TRUE
+PROPERTIES ReleasedHeld
 CHECK_DEADLOCK FALSE
